@@ -294,3 +294,36 @@ def c15(tier):
     js += with_witness(J("flags", "C07_poly.c", ["-DFLAGS"], unwind=3, est=10, stubs=GEO_STUBS, bound="all 2^32 flag words x all int resolutions"))
     js += with_witness(J("bbox_algebra", "C07_poly.c", ["-DBBOX"], unwind=2, est=30, bound="all in-range doubles"))
     return js
+
+
+# ------------------------------------------------------------------------------------------- C09
+@prop("C09",
+      functions=["gridDistance", "gridPathCellsSize", "cellToLocalIjk", "cellToLocalIj", "localIjToCell", "localIjkToCell", "ijkDistance", "ijToIjk", "ijkToIj", "_h3ToFaceIjkWithInitializedFijk", "_getBaseCellDirection", "h3NeighborRotations"],
+      bounds={"quick": "a=b, resolution mismatch (any valid cell of another resolution), mode != 0: all valid cells of res 0,1,8,15; neighbours at distance 1: all neighbour pairs of res 0-3; symmetry: every pair of res-0 cells",
+              "thorough": "neighbours: res 0-15 as far as they finish; symmetry and the Lipschitz half of the graph-distance characterisation: every pair of cells of res 0-2; IJ round trip res 0-2, |i|,|j| <= 64"},
+      outside="graph-distance equality beyond the local characterisation; IJ round trips above res 2 / beyond 2^6 (SAT cannot invert the coordinate arithmetic); unit-step clause",
+      assumptions=["L-UP7 model for _upAp7Checked/_upAp7rChecked in the IJ round-trip job (lemma proved in the same run)"],
+      stubs=["_upAp7*, _upAp7r* -> integer model (IJRT only)"])
+def c09(tier):
+    js = []
+    LL = {"cellToLocalIjk.0": 7, "cellToLocalIjk.1": 7, "cellToLocalIjk.2": 7, "cellToLocalIjk.3": 7, "cellToLocalIjk.4": 7, "cellToLocalIjk.5": 7,
+          "localIjkToCell.1": 7, "localIjkToCell.2": 7, "localIjkToCell.3": 7, "localIjkToCell.4": 7, "localIjkToCell.5": 7, "localIjkToCell.6": 7}
+    for r in (0, 1, 8, 15):
+        j = J("basic_r%d" % r, "C09_dist.c", ["-DBASIC", "-DRES=%d" % r], unwind=r + 2, us=LL, est=20 + 5 * r, bound="all valid cells of res %d" % r)
+        js += with_witness(j) if r == 1 else [j]
+    for r in ALLRES:
+        t = "quick" if r <= 3 else "thorough"
+        j = J("nbr_r%d" % r, "C09_dist.c", ["-DNBR", "-DRES=%d" % r], unwind=r + 2, us=LL, est=100 + 50 * r, tier=t, mem="M", timeout=3000, core=(r <= 5), bound="all neighbour pairs of res %d" % r)
+        js += with_witness(j, tier=t) if r == 1 else [j]
+    for r in (0, 1, 2):
+        t = "quick" if r == 0 else "thorough"
+        j = J("sym_r%d" % r, "C09_dist.c", ["-DSYM", "-DRES=%d" % r], unwind=r + 2, us=LL, est=100 + 500 * r, tier=t, mem="M", timeout=3400, bound="every pair of cells of res %d" % r)
+        js += with_witness(j, tier=t) if r == 0 else [j]
+        j = J("lip_r%d" % r, "C09_dist.c", ["-DLIP", "-DRES=%d" % r], unwind=r + 2, us=LL, est=200 + 600 * r, tier="thorough", mem="M", timeout=3400, bound="every (a, b, direction) of res %d" % r)
+        js += with_witness(j, tier="thorough") if r == 0 else [j]
+    js += [dict(j, tier="thorough") for j in up7_lemma(10, checked=True)]
+    for r in (0, 1, 2):
+        j = J("ijrt_r%d" % r, "C09_dist.c", ["-DIJRT", "-DRES=%d" % r, "-DIJB=64", "-DUPB=(1<<10)"], unwind=r + 2, us=dict(LL, **{"localIjkToCell.0": r + 2}), unit_defs=UP7_DEFS_CHK, est=300 + 300 * r, tier="thorough", mem="M", timeout=3400, core=False,
+              bound="all origins of res %d, |i|,|j| <= 64" % r)
+        js += with_witness(j, tier="thorough") if r == 1 else [j]
+    return js
